@@ -203,3 +203,114 @@ fn expandafter_equivalence() {
     }
     println!("STATS {{\"fn\": \"expandafter\", \"cases\": {n}}}");
 }
+
+// ---------------------------------------------------------------- (3) \noexpand: exactly one expansion is suppressed (TeX.2021.358, 369)
+/// tokens with TeX's `dont_expand` mark: \noexpand puts the next token back MARKED; the next time the mark is read the
+/// token (if expandable) means \relax - it is delivered unexpanded - and the mark is gone; reading it without expansion
+/// (a macro argument, the two tokens \expandafter takes) also removes the mark
+#[derive(Clone, Copy, PartialEq, Debug)]
+enum N { Xa, Ne, A, B, G, L(char) }
+fn nbody(t: N) -> Option<Vec<N>> { match t { N::A => Some(vec![N::B, N::L('y')]), N::B => Some(vec![N::L('w'), N::L('z')]), _ => None } }
+/// `lossy`: the behaviour of the code under test as read off its source (expand_once pushes the token the \noexpand hook
+/// hands back WITHOUT any mark, so the protection is lost when \noexpand is expanded through \expandafter); used only to
+/// LABEL a failure with its class
+fn n_expand_once(l: &mut Vec<(N, bool)>, lossy: bool) {
+    if l.is_empty() { return; }
+    match l[0].0 {
+        N::Xa => {
+            if l.len() < 2 { l.remove(0); return; }
+            let t1 = (l[1].0, false);
+            let mut rest: Vec<(N, bool)> = l[2..].to_vec();
+            // the second token is read by get_token: a marked token means \relax here (not expanded) and loses its mark
+            if !rest.is_empty() { if rest[0].1 { rest[0].1 = false; } else if !matches!(rest[0].0, N::L(_)) { n_expand_once(&mut rest, lossy); } }
+            *l = std::iter::once(t1).chain(rest.into_iter()).collect();
+        }
+        N::Ne => {
+            if l.len() < 2 { l.remove(0); return; }
+            let t = l[1].0;
+            let mark = !matches!(t, N::L(_)) && !lossy;
+            let rest: Vec<(N, bool)> = l[2..].to_vec();
+            *l = std::iter::once((t, mark)).chain(rest.into_iter()).collect();
+        }
+        N::G => {
+            let rest: Vec<(N, bool)> = l[1..].to_vec();
+            match rest.iter().position(|t| t.0 == N::L('y')) {
+                Some(k) => {
+                    let mut n: Vec<(N, bool)> = vec![(N::L('('), false)];
+                    n.extend(rest[..k].iter().map(|t| (t.0, false)));
+                    n.push((N::L(')'), false));
+                    n.extend(rest[k + 1..].iter().copied());
+                    *l = n;
+                }
+                None => { *l = vec![(N::L('!'), false)]; }
+            }
+        }
+        t => if let Some(b) = nbody(t) { let rest: Vec<(N, bool)> = l[1..].to_vec(); *l = b.into_iter().map(|x| (x, false)).chain(rest.into_iter()).collect(); }
+    }
+}
+fn n_full(toks: &[N], lossy: bool) -> String {
+    let mut l: Vec<(N, bool)> = toks.iter().map(|t| (*t, false)).collect();
+    let mut out = String::new();
+    let mut fuel = 10_000;
+    let name = |t: N| match t { N::Xa => "xa", N::Ne => "noexpand", N::A => "a", N::B => "b", N::G => "g", N::L(_) => "" };
+    while !l.is_empty() && fuel > 0 {
+        fuel -= 1;
+        match l[0] {
+            (N::L(c), _) => { out.push(c); l.remove(0); }
+            // a marked token is delivered unexpanded (written here as the top-level \noexpand that delivers it)
+            (t, true) => { out.push_str(&format!("\\noexpand\\{} ", name(t))); l.remove(0); }
+            // \noexpand met by the main loop itself: the next token is delivered unexpanded right away
+            (N::Ne, false) => { if l.len() < 2 { l.remove(0); } else { let t = l[1].0; l.drain(0..2); match t { N::L(c) => out.push(c), t => out.push_str(&format!("\\noexpand\\{} ", name(t))) } } }
+            _ => n_expand_once(&mut l, lossy),
+        }
+    }
+    out
+}
+
+#[test]
+fn noexpand_chains() {
+    std::panic::set_hook(Box::new(|_| {}));
+    let alphabet = [(N::Xa, "\\xa "), (N::Ne, "\\noexpand "), (N::A, "\\a "), (N::B, "\\b "), (N::L('x'), "x"), (N::G, "\\g ")];
+    let prelude = "\\def\\a{\\b y}\\def\\b{wz}\\def\\g#1y{(#1)}";
+    let (mut n, mut known, mut runaway) = (0u64, 0u64, 0u64);
+    let mut known_reported = false;
+    for len in 1..=5usize {
+        let mut idx = vec![0usize; len];
+        loop {
+            let mut toks: Vec<N> = idx.iter().map(|&i| alphabet[i].0).collect();
+            let mut body_src: String = idx.iter().map(|&i| alphabet[i].1).collect();
+            toks.extend([N::A, N::L('x'), N::L('y')]);
+            body_src.push_str("\\a xy");
+            let src = format!("{prelude}{body_src}").replace("\\\\", "\\");
+            let want = n_full(&toks, false);
+            if !want.contains('!') {
+                n += 1;
+                for optimized in [false, true] {
+                    if !same(&src, &want, optimized, optimized) {
+                        let as_code = n_full(&toks, true);
+                        // (where losing the mark turns the string into a runaway argument the run ends in an error and cannot be
+                        //  compared with anything: counted, not judged)
+                        if as_code != want && as_code.contains('!') { runaway += 1; continue; }
+                        if as_code != want && same(&src, &as_code, optimized, optimized) {
+                            // the ONE known deviation (known_findings.json): nothing else differs from TeX on this string
+                            known += 1;
+                            if !known_reported {
+                                known_reported = true;
+                                println!("WITNESS {{\"fn\": \"noexpand\", \"class\": \"noexpand mark lost when expanded through expandafter\", \"unit_fns\": [\"expand_once\", \"noexpand_hook\"], \"source\": \"{}\", \"observed\": \"expands to {}\", \"expected\": \"{} (TeX.2021.358, 369: the token stays unexpandable until it is next read)\"}}",
+                                    src.replace('\\', "\\\\"), as_code.replace('\\', "\\\\"), want.replace('\\', "\\\\"));
+                            }
+                        } else {
+                            println!("WITNESS {{\"fn\": \"noexpand\", \"unit_fns\": [\"expand_once\", \"noexpand_hook\", \"expandafter_simple_fn\", \"expandafter_optimized_fn\"], \"source\": \"{}\", \"implementation\": \"{}\", \"observed\": \"expansion differs from TeX's\", \"expected\": \"{}\"}}",
+                                src.replace('\\', "\\\\"), if optimized { "optimized" } else { "simple" }, want.replace('\\', "\\\\"));
+                            return;
+                        }
+                    }
+                }
+            }
+            let mut p = 0;
+            loop { if p == len { break; } idx[p] += 1; if idx[p] < alphabet.len() { break; } idx[p] = 0; p += 1; }
+            if p == len { break; }
+        }
+    }
+    println!("STATS {{\"fn\": \"noexpand\", \"cases\": {n}, \"of_the_known_class\": {known}, \"not_judged_runaway_under_the_known_deviation\": {runaway}}}");
+}
